@@ -148,6 +148,14 @@ def str_method(it, o, a, args, kw):
         return split_tmpl(o, sep, mx, right=(a == "rsplit"))
     if a == "splitlines":
         return split_tmpl(o, "\n")
+    if a in ("partition", "rpartition"):
+        sep = args[0] if args else None
+        if not isinstance(sep, str) or not sep:
+            raise Unsupported("partition without a literal separator")
+        pieces = split_tmpl(o, sep, 1, right=(a == "rpartition"))
+        if len(pieces) == 2:
+            return (pieces[0], sep, pieces[1])
+        return (o, "", "") if a == "partition" else ("", "", o)
     if a in ("strip", "lstrip", "rstrip"):
         t = as_tmpl(o)
         parts = list(t.parts)
